@@ -18,7 +18,7 @@ from ..runner import Acc
 from .. import logmode
 
 PROPERTY = "C02"
-DEBUGLOG_EVERY = 7  # the receive path logs every read: DEBUG shards cost several times the plain ones
+DEBUGLOG_EVERY = 0  # DEBUG-logging shards are listed explicitly in shards()
 LEVEL = "exploration"
 RULE = (
     "Cases are (byte stream, partition into read chunks) pairs.  Streams: (a) every string up to "
@@ -91,6 +91,18 @@ def shards(tier, seed):
             out.append({"part": "c", "n": 30000, "allchunk": 11, "seed": seed * 100 + i})
         for k in range(5):
             out.append({"part": "mem", "mib": 64, "kind": k, "seed": seed})
+    for d in out:
+        d["debuglog"] = False
+    # the receive path logs every read, so DEBUG logging multiplies the cost: it gets shards of its own,
+    # smaller ones, instead of a share of the big ones
+    nm = len(macro_symbols())
+    for i in (0, 1, 5, 9):
+        out.append({"part": "a", "first": i, "len": 4, "allchunk": 4, "seed": seed, "debuglog": True})
+    for i in range(0, nm, 6):
+        out.append({"part": "b", "first": [i, min(i + 6, nm)], "len": 2, "allchunk": 8, "seed": seed, "debuglog": True})
+    for i in range(2):
+        out.append({"part": "c", "n": 1200 if tier == "quick" else 6000, "allchunk": 8, "seed": seed * 100 + 50 + i, "debuglog": True})
+    out.append({"part": "mem", "mib": 1, "kind": 0, "seed": seed, "debuglog": True})
     out.sort(key=lambda d: d["part"] != "mem")  # longest shards first
     return out
 
@@ -220,6 +232,9 @@ def part_b(desc) -> Acc:
     for f in syms[lo:hi]:
         for n in range(1, desc["len"] + 1):
             for tail in itertools.product(syms, repeat=n - 1):
+                if n >= 3 and sum(1 for x_ in (f,) + tail if len(x_) > 100) >= 1 and sum(len(x_) for x_ in (f,) + tail) > 300 and \
+                        (len(f) <= 100 or n > 3):
+                    continue  # the maximal-length frames appear first in a sequence, or in pairs
                 stream = f + b"".join(tail)
                 check_stream(acc, stream, desc["allchunk"], rnd, "b")
     acc.sample({"kind": "macro sequence", "example": (syms[lo] + syms[-3] + syms[7]).hex()})
